@@ -358,6 +358,8 @@ def main(argv=None):
         rp = {"property": prop, "obligation": v["obligation"], "solver_model": v.get("model"),
               "solver_output": v.get("model_text"), "goal": v.get("goal")}
         suffix = ""
+        if v.get("bounded"):
+            rp["bounded"] = True
         if v.get("native") is not None:
             rp["replayed"] = True
             rp["native"] = v["native"]
@@ -573,6 +575,14 @@ def replay_file(path):
     mod = importlib.import_module("contracts." + prop.lower())
     _attach_known(mod, prop)
     from pyvc.engine import replay_native
+    if rp.get("bounded") and hasattr(mod, "replay_bounded"):
+        ok, detail = mod.replay_bounded(rp.get("inputs"))
+        print(json.dumps(detail, indent=1, default=repr))
+        if ok is False:
+            print("VIOLATION property=%s replay=%s" % (prop, path))
+            return 1
+        print("input does not violate the contract on this tree")
+        return 0
     if rp.get("contract_index") is None or not rp.get("inputs"):
         print("replay file carries no concrete input (obligation %s); solver output:\n%s" % (rp["obligation"], rp.get("solver_output")))
         return 2
